@@ -204,6 +204,14 @@ def full_unit(plan):
             plan.verus.append(VerusUnit(uname, build(src), {fn: fns[fn]}, ["canary_" + uname]))
         except AnchorLost as e:
             plan.anchor_errors.append((fns[fn], str(e)))
+    ne = "C20.verus.expand_mechdown_includes.starts_with_empty_active_set"
+    plan.ob(ne, "verus", "proved", functions=["src/mechfs.rs: expand_mechdown_includes (whole body)"],
+            what="loading a .mec file is the expansion of its canonical path with NO file marked as being expanded (so a file is a cycle only through its own include graph); a path that does not resolve is an error")
+    try:
+        plan.verus.append(VerusUnit("c20_entry", vC20.entry_unit(src), {"expand_mechdown_includes": ne}, ["canary_c20_entry"]))
+    except AnchorLost as e:
+        plan.anchor_errors.append((ne, str(e)))
+    plan.dropped.append(vC20.entry_fn.__doc__.strip())
     plan.dropped.append(vC20.__doc__.strip())
 
 
